@@ -173,7 +173,7 @@ func drawC02(t *rapid.T) *c02Scenario {
 	}
 	// profile: a workload spread over zones with nodeTaintsPolicy Honor in a cluster where some nodes carry a taint it
 	// does not tolerate; whatever runs on those nodes (often pods the spread selects, several per node) must not count
-	excludedProfile := dpct(t, 18, "excludedNodesProfile")
+	excludedProfile := dpct(t, 30, "excludedNodesProfile")
 	if excludedProfile {
 		honor := corev1.NodeInclusionPolicyHonor
 		app := w.Pending[0].Labels["app"]
